@@ -7,7 +7,6 @@ import (
 	"go/ast"
 	"go/token"
 	"go/types"
-	"path/filepath"
 	"strings"
 )
 
@@ -36,7 +35,7 @@ func (x *Exec) isSpecFunc(fn *types.Func) bool {
 		return false
 	}
 	pos := x.eng.prog.Fset.Position(fn.Pos())
-	return filepath.Base(pos.Filename) == "verif_contracts.go"
+	return isContractFile(pos.Filename)
 }
 
 func (x *Exec) call(st *State, e *ast.CallExpr) []Val {
@@ -73,11 +72,20 @@ func (x *Exec) call(st *State, e *ast.CallExpr) []Val {
 				x.fail("fresh(...) outside a postcondition")
 			}
 			al := x.heapGet(pre, "alloc", SArr(SInt, SBool))
-			return []Val{{Typ: types.Typ[types.Bool], T: x.c.And(x.c.Neq(v.T, x.c.Int(0)), x.c.Not(x.c.Select(al, v.T)))}}
+			ref := v.T
+			if v.IsSlice() {
+				ref = v.Arr
+			}
+			return []Val{{Typ: types.Typ[types.Bool], T: x.c.And(x.c.Neq(ref, x.c.Int(0)), x.c.Not(x.c.Select(al, ref)))}}
 		case "sameArray":
 			a := x.expr(st, e.Args[0])
 			b := x.expr(st, e.Args[1])
 			return []Val{{Typ: types.Typ[types.Bool], T: x.c.Eq(a.Arr, b.Arr)}}
+		case "sameSlice":
+			a := x.expr(st, e.Args[0])
+			b := x.expr(st, e.Args[1])
+			c := x.c
+			return []Val{{Typ: types.Typ[types.Bool], T: c.And(c.Eq(a.Arr, b.Arr), c.Eq(a.Off, b.Off), c.Eq(a.Len, b.Len), c.Eq(a.Cap, b.Cap))}}
 		}
 		if strings.HasPrefix(fn.Name(), "ite") && sig.Params().Len() == 3 && isBool(sig.Params().At(0).Type()) {
 			cnd := x.expr(st, e.Args[0])
@@ -1103,7 +1111,7 @@ func (p *Program) modeDependent(con *Contract) string {
 					}
 					if d := p.Decls[key]; d != nil && d.Body != nil {
 						pos := p.Fset.Position(fn.Pos())
-						if filepath.Base(pos.Filename) == "verif_contracts.go" {
+						if isContractFile(pos.Filename) {
 							if w := checkNode(d.Body, p.DeclPkg[key].TypesInfo); w != "" {
 								why = "spec function " + fn.Name() + ": " + w
 							}
